@@ -15,35 +15,35 @@ import (
 // frame history on the reference terminal, compared after every flush. C07
 // reuses it with its own oracles switched on.
 type frameWorld struct {
-	prop   string
-	s      *simrt.Sched
-	res    *RunResult
-	env    *sessionEnv
-	caps   simterm.Caps
-	bits   int
-	rows   int
-	cols   int
-	frames []frame
-	pers   simterm.Personality
-	userIn bool
-	storm  bool // concurrent resizes at random moments
-	stormN int
-	stormT []int64
-	stormSz [][2]int
+	prop      string
+	s         *simrt.Sched
+	res       *RunResult
+	env       *sessionEnv
+	caps      simterm.Caps
+	bits      int
+	rows      int
+	cols      int
+	frames    []frame
+	pers      simterm.Personality
+	userIn    bool
+	storm     bool // concurrent resizes at random moments
+	stormN    int
+	stormT    []int64
+	stormSz   [][2]int
 	colorterm string
 
-	vx       *vaxis.Vaxis
-	m        *appModel
-	done     bool
-	checked  int
-	newErr   string
-	frameNo  int
-	caps07   map[string]bool
-	capture  bool
-	stormOver bool
+	vx          *vaxis.Vaxis
+	m           *appModel
+	done        bool
+	checked     int
+	newErr      string
+	frameNo     int
+	caps07      map[string]bool
+	capture     bool
+	stormOver   bool
 	resizerDone bool
-	slow      bool // C07: replies late or missing; only soundness is checked
-	sweep     bool // C07: colour sweep
+	slow        bool // C07: replies late or missing; only soundness is checked
+	sweep       bool // C07: colour sweep
 }
 
 func init() {
